@@ -31,7 +31,7 @@ KF = "KF-tools-ubi-eps-2pi"
 def cells(tier):
     cs = alph.cells("quick")
     n = 10 if tier == "quick" else 40
-    return cs[::max(1, len(cs) // n)][:n]
+    return cs[::max(1, len(cs) // n)][:n] + [[5.1, 6.2, 7.3, 90.0, 90.0004, 90.0], [4.0, 4.0, 9.0, 89.9996, 90.00001, 120.0]]
 
 
 def rots(tier):
@@ -118,6 +118,10 @@ def gen(fn, tier):
             M = np.array(M, float)
             if np.linalg.det(M) > 0:
                 yield (M, (M * TP,), (M,), (one, TP))
+        from . import c02
+
+        for M in c02.illcond():
+            yield (np.round(M, 6), (M * TP,), (M,), (one, TP))
     elif fn in ("u_to_euler", "u_to_rod"):
         band = [alph.euler_ref(p1, P, p2) for p1 in (0.0, 1.0, 4.0) for p2 in (0.0, 2.0, 6.0) for d in alph.GIMBAL_BAND for P in (d, math.pi - d)]
         for U in R + band:
@@ -345,7 +349,10 @@ def check_case(case):
             for a, b, s in zip(vt, vl, scale):
                 devs.append(dev(a, b, s))
             d = max(devs)
-            if not d <= tol * 100:
+            lim2 = tol * 100
+            if fn == "ub_to_u_b":
+                lim2 = 1e-12 * max(1.0, float(np.linalg.cond(np.asarray(la[0], float))))
+            if not d <= lim2:
                 model = None
                 if fn == "ubi_to_u_and_eps" and devs[0] <= tol * 100:
                     et = np.array(vt[1], float)
@@ -353,7 +360,7 @@ def check_case(case):
                     iv = np.array([1, 0, 0, 1, 0, 1], float)
                     if float(np.max(np.abs(et - (TP * (el + iv) - iv)))) <= 1e-8 * 50:
                         model = KF
-                r.violation(k, "outputs differ beyond the documented 2 pi factor", [np.asarray(x).tolist() for x in vt], [np.asarray(x).tolist() for x in vl], tol * 100, d, model=model)
+                r.violation(k, "outputs differ beyond the documented 2 pi factor", [np.asarray(x).tolist() for x in vt], [np.asarray(x).tolist() for x in vl], lim2, d, model=model)
             r.upd(fn, d if not (fn == "ubi_to_u_and_eps") else devs[0])
             continue
         d = dev(vt, vl, scale)
